@@ -86,6 +86,13 @@ type State struct {
 	factsShared bool
 	ubs       map[int]uint64 // term id -> known unsigned upper bound on this path
 	ubsShared bool
+	// cooperative goroutines (sched.go)
+	threads []*thread // parked threads; the running one owns frames
+	curTID  int       // 0 = the harness entry
+	nextTID int
+	stalled int
+	timers  []timerRec
+	vtime   *Term // virtual nanoseconds elapsed
 }
 
 func (s *State) setUB(t *Term, v uint64) {
@@ -151,6 +158,7 @@ func (s *State) fork() *State {
 	c.bufs = append([]bufInput(nil), s.bufs...)
 	c.obs = append([]obsEntry(nil), s.obs...)
 	c.panicking = s.panicking
+	s.cloneThreads(c)
 	c.clock = s.clock
 	c.facts = s.facts
 	c.factsShared = true
